@@ -46,7 +46,7 @@ Anns == [type : BOOLEAN, func : BOOLEAN, meth : BOOLEAN]
 
 Cont(x, u) == [ctx |-> x, use |-> u, sp |-> "direct"]
 ContS(x, u, sp) == [ctx |-> x, use |-> u, sp |-> sp]
-Spells == {"direct", "alias", "alias3", "ptralias", "rename", "paren"}
+Spells == {"direct", "alias", "alias3", "chain", "ptralias", "ptrchain", "ptrofalias", "rename", "paren"}
 
 Valid(c, pkg) ==
   /\ (c.use = "fieldTT" <=> c.ctx = "decl")
@@ -96,7 +96,7 @@ InitProg ==
      /\ \E ann \in {a \in Anns : a.type}, pkg \in {"d", "u"}, x \in Ctxs, u \in TypeUses \ {"litTT2", "litOTT"}, sp \in Spells :
           /\ Valid(Cont(x, u), pkg)
           /\ (sp \in {"alias3", "rename"} => pkg = "u")
-          /\ (sp = "ptralias" => u \in {"varPtrTT", "resultTT"})
+          /\ (sp \in {"ptralias", "ptrchain", "ptrofalias"} => u \in {"varPtrTT", "resultTT"})
           /\ (sp = "paren" => u \notin {"litTT"})
           /\ prog = [ann |-> ann, pkg |-> pkg, files |-> <<[test |-> FALSE, conts |-> <<ContS(x, u, sp)>>]>>]
   \/ /\ Mode = "seq2"
@@ -138,7 +138,7 @@ Key(u) == IF "DedupByName" \in Deviations THEN TypeOf(u)[2] ELSE TypeOf(u)
 \* what one visit adds: TONL02 / TONL03 for every call; TONL01 once per file and type
 VisitCodes(c) ==
   LET cs == IF c.use = "shadow" /\ "MatchByName" \in Deviations /\ prog.ann.func THEN {"TONL02"}
-            ELSE IF "NoUnalias" \in Deviations /\ c.sp \in {"alias", "alias3", "ptralias"} THEN {}
+            ELSE IF "NoUnalias" \in Deviations /\ c.sp \in {"alias", "alias3", "chain", "ptralias", "ptrchain", "ptrofalias"} THEN {}
             ELSE Cands(c, prog.ann)
   IN IF "StopAtReportedCall" \in Deviations /\ "TONL02" \in cs THEN {"TONL02"} ELSE cs     \* the arguments of a reported call are not visited
 
